@@ -15,12 +15,14 @@ def run(ctx, replay=None):
                 "dependent D, 1-3 solve calls) are run through the real SinglePhaseModel with scripted thermodynamics; TLC evaluates "
                 "the same run, checks Balance/ClosedConstant/DirichletFixed/Bounds on every step and across solve calls, and its "
                 "predicted record (times and profiles) must equal the model's. Distinct = configuration; non-trivial = at least "
-                "one step changed the profile.")
+                "one step changed the profile. HomogenizationModel (all rules, closed / flux / fixed-composition boundaries, 1-2 solve calls, both iterators, scripted two-phase "
+                "equilibrium): per-step balance with the model's own boundary fluxes, closed-system invariance, fixed nodes and bounds judged by Relations.tla.")
     ctx.assumptions = ["dyadic inputs (k/64 compositions, minComposition 2^-10) so float arithmetic is exact to rounding",
                        "scripted interdiffusivity D = Tm(T)(A + B x1); pycalphad-backed runs are covered by the trace part"]
     if replay:
         cases = [replay["detail"]["case_py"]]
         raise MachineryError("replay for C04: re-run with the same seed; case is stored in the replay file")
+    homogenization_part(ctx)
     cases = D.gen_cases(ctx.rng, ctx.tier)
     obs = [D.run_case(c) for c in cases]
     js = [D.to_json(c) for c in cases]
@@ -57,6 +59,36 @@ def run(ctx, replay=None):
             kinds = sorted(set(b.split("[")[0].split(":")[0] + (":" + b.split(":")[1] if b.startswith("spec:") else "") for b in bad))
             ctx.violation("diffusion:" + ",".join(kinds), "SinglePhaseModel vs Diffusion.tla: %s" % bad,
                           {"case_json": j, "bad": bad, "observed": o, "expected": e})
+
+
+def homogenization_part(ctx):
+    """HomogenizationModel: conservation / boundary clauses judged by Relations.tla on runs with a scripted two-phase equilibrium"""
+    from .. import homog_drv as H
+    from .. import traces as T
+    cfgs = H.homog_model_configs()
+    results = [H.homog_model_run(c) for c in cfgs]
+    traces = [r[0] for r in results]
+    import copy
+    can = copy.deepcopy(traces[0])
+    for e in can:
+        if e["e"] == "rel" and e["group"] == "C04:closed-constant":
+            e["c"] = "lt"
+            break
+    reached, res = T.validate("Relations", [], traces + [can], "c04_homog")
+    ctx.add_tlc(res, "Relations over %d HomogenizationModel runs" % len(traces))
+    if res.violated or reached is None:
+        raise MachineryError("Relations failed (homogenization)")
+    if not reached[-1]["fails"]:
+        raise MachineryError("binding self-test failed: corrupted homogenization trace accepted")
+    for c, (ev, info), v in zip(cfgs, results, reached):
+        ctx.replayed += info["steps"]
+        ctx.case(c["tag"], nontrivial=info["moved"] > 1e-6, sample={"config": c, "info": info} if len(ctx.samples) < 4 else None)
+        if info["moved"] <= 1e-6:
+            raise MachineryError("vacuity: homogenization run %s did not change the profile" % c["tag"])
+        if v["l"] != len(ev) + 1:
+            ctx.violation("homog-model:trace-not-consumed", "run %s not consumed" % c["tag"], {"config": c})
+        for f in v["fails"]:
+            ctx.violation("homog-model:%s" % f[0], "HomogenizationModel run %s: %s violated at %s (observed %s, stated %s)" % (c["tag"], f[0], f[1], f[2], f[3]), {"config": c, "fail": f})
 
 
 if __name__ == "__main__":
